@@ -199,6 +199,34 @@ impl Workspace {
   }
 }
 
+/// Read-only view of the internal state of [Workspace], compiled only for verification.
+#[cfg(dmntk_verif)]
+#[derive(Debug, Clone, PartialEq, Eq, Default)]
+pub struct VerifSnapshot {
+  /// Pairs (namespace, name) of stashed definitions, in order.
+  pub definitions: Vec<(String, String)>,
+  /// Key of the namespace index mapped to (namespace, name) of indexed definitions.
+  pub by_namespace: std::collections::BTreeMap<String, (String, String)>,
+  /// Key of the name index mapped to (namespace, name) of indexed definitions.
+  pub by_name: std::collections::BTreeMap<String, (String, String)>,
+  /// Keys of deployed model evaluators.
+  pub evaluators: std::collections::BTreeSet<String>,
+}
+
+#[cfg(dmntk_verif)]
+impl Workspace {
+  /// Returns the read-only view of the internal state of this [Workspace].
+  pub fn verif_snapshot(&self) -> VerifSnapshot {
+    let pair = |d: &Arc<Definitions>| (d.namespace().to_string(), d.name().to_string());
+    VerifSnapshot {
+      definitions: self.definitions.iter().map(pair).collect(),
+      by_namespace: self.definitions_by_namespace.iter().map(|(k, d)| (k.clone(), pair(d))).collect(),
+      by_name: self.definitions_by_name.iter().map(|(k, d)| (k.clone(), pair(d))).collect(),
+      evaluators: self.model_evaluators_by_name.keys().cloned().collect(),
+    }
+  }
+}
+
 #[cfg(test)]
 mod tests {
   use super::*;
